@@ -471,3 +471,77 @@ func ruleFCListNonNil(r *Report) {
 	}
 	r.Min(rule, 4)
 }
+
+// R-SCAN-FRAMING: every sequential scanner of a size-prefixed log advances its
+// read cursor by exactly 4 + record size on every way round its loop (the
+// record size being the size word with the deleted bit stripped), so that the
+// next size word is read where the next record starts — for live and for
+// deleted (tombstoned) records alike.
+func ruleScanFraming(r *Report) {
+	const rule = "scan-framing"
+	for _, t := range [][2]string{{"I", "scanIndexFile"}, {"M", "chunkOldPrimary"}, {"I", "(*Index).reapIndexRecords"}, {"M", "(*primaryGC).reapRecords"}} {
+		fn := r.need(rule, t[0], t[1])
+		if fn == nil {
+			continue
+		}
+		sws := findSizeWords(fn)
+		if len(sws) == 0 {
+			r.Undecided(rule, shortFunc(fn)+": no size word")
+			continue
+		}
+		sw := sws[0]
+		var cursor *ssa.Phi
+		for _, ra := range callSites(fn, "(*os.File).ReadAt") {
+			if rootBuffer(ra.Common().Args[1]) == sw.buf && instrDominates(ra, sw.call) {
+				cursor, _ = stripIntConv(ra.Common().Args[2]).(*ssa.Phi)
+			}
+		}
+		if cursor == nil {
+			r.Undecided(rule, shortFunc(fn)+": scan cursor is not a loop variable")
+			continue
+		}
+		env := linEnv{Canon: func(v ssa.Value) (string, bool) {
+			if v == ssa.Value(cursor) {
+				return "POS", true
+			}
+			if isSizeOfRecord(v, sw, map[ssa.Value]bool{}) {
+				if _, isConst := v.(*ssa.Const); !isConst {
+					return "SZ", true
+				}
+			}
+			return "", false
+		}}
+		want := linConst(4).add(linAtom("SZ"), 1)
+		n := 0
+		// expand the values flowing round the loop through intermediate phis
+		var expand func(v ssa.Value, seen map[ssa.Value]bool) []ssa.Value
+		expand = func(v ssa.Value, seen map[ssa.Value]bool) []ssa.Value {
+			if p, ok := stripIntConv(v).(*ssa.Phi); ok && p != cursor && !seen[p] {
+				seen[p] = true
+				var out []ssa.Value
+				for _, e := range p.Edges {
+					out = append(out, expand(e, seen)...)
+				}
+				return out
+			}
+			return []ssa.Value{v}
+		}
+		for i, e := range cursor.Edges {
+			pred := cursor.Block().Preds[i]
+			if !cursor.Block().Dominates(pred) {
+				continue // loop entry
+			}
+			for _, v := range expand(e, map[ssa.Value]bool{}) {
+				n++
+				l := env.lin(v).add(linAtom("POS"), -1)
+				r.Check(l.equal(want), rule, shortFunc(fn)+"/advance", instrPos(lastInstr(pred)),
+					"the cursor advances by size prefix + record size on this way round the loop",
+					"the scan cursor advances by ["+l.String()+"] instead of 4 + record size on one way round the loop (e.g. over a deleted record): the next size word is read from the middle of a record, everything after the first such record is misparsed and usually cut off as a torn tail — flushed keys are lost on the next rescan")
+			}
+		}
+		if n == 0 {
+			r.Bad(rule, shortFunc(fn)+"/advance", fn.Pos(), "the scan loop never advances its cursor")
+		}
+	}
+	r.Min(rule, 6)
+}
